@@ -46,6 +46,9 @@ INSTANCES = [
 def run(ctx, chk, only=None, prefix="ATOM"):
     P = ctx.P
     A = getattr(ctx, "_atom", None)
+    if only is None:
+        from props.c14 import aux_after_base_import
+        aux_after_base_import(ctx, chk, "ATOM.aux")
     if A is None:
         A = atom.Atom(P, ctx.L).solve()
         ctx._atom = A
